@@ -38,7 +38,7 @@ OpProp(op, kind) ==
    ELSE IF op \in RawEntryOps THEN {"C14"}
    ELSE IF op \in {"retain", "extract_if", "t_extract_if", "drain"} THEN {"C10"} \cup KindProp(kind)
    ELSE IF op \in {"iter", "into_iter", "iter_default"} THEN {"C09"}
-   ELSE IF op \in ParOps THEN {"C19"}
+   ELSE IF op \in ParOps THEN {"C19"} \cup (IF op = "par_drain" THEN {"C10"} ELSE {})
    ELSE IF op \in {"serde_roundtrip", "serde_de", "serde_de_in_place"} THEN {"C20"}
    ELSE IF op \in {"clone", "clone_from", "eq"} THEN {"C11"} \cup (IF kind = "set" /\ op = "eq" THEN {"C07"} ELSE {})
    ELSE IF op \in {"get_many_mut", "get_many_kv_mut", "t_get_many_mut"} THEN {"C15"} \cup KindProp(kind)
@@ -258,6 +258,11 @@ OpStep(e) ==
           [] e.op = "or_assign" -> AR(A, {}, e.pn = "")
           [] e.op = "xor_assign" -> AR(A, {z[2] : z \in {w \in A : w[1] \in Cls(A2)}}, e.pn = "")
           [] e.op \in OpForms -> AR(A, AllIds(ab[3]), e.pn = "")
+          \* FromIterator: a fresh collection (Default hasher = plan 0) that received the items in order; the old one is dropped
+          [] e.op = "from_iter" ->
+               LET x == IF hd.kind = "set" THEN AbsSetOp([e EXCEPT !.op = "extend"], {}, {}, PlanFn(hd, 0))
+                        ELSE AbsMapOp([e EXCEPT !.op = "extend"], {}, {}, PlanFn(hd, 0))
+               IN AR(x.A, x.dr \cup AllIds(A), x.ok /\ obsX[t].pl = 0)
           [] hd.kind = "set" -> AbsSetOp(e, A, A2, ph)
           [] e.op = "t_get_many_mut" -> TGetManyAbs(e, A, pre, PlanFn(hd, 0), hd.tr = 1)
           [] e.op = "t_entry_insert" /\ e.r[1] = 1 ->
@@ -325,7 +330,7 @@ OpStep(e) ==
              ELSE lk
       \* tables whose contents differ from what the reference model holds (they stay marked until their contents are replaced)
       Replaced(i) == \/ (e.op \in {"clone", "serde_roundtrip"} /\ i = u)
-                     \/ (e.op \in {"serde_de", "serde_de_in_place", "clone_from", "or_assign", "xor_assign", "new", "with_capacity", "drop", "clear"} /\ i = t)
+                     \/ (e.op \in {"serde_de", "serde_de_in_place", "clone_from", "or_assign", "xor_assign", "new", "with_capacity", "drop", "clear", "from_iter"} /\ i = t)
                      \/ (e.op \in OpForms /\ i = 3)
       lk2 == [lk1 EXCEPT !.dv = {i \in 1..hd.nt : lvAfter(i) /\ (Elems(obsT[i]) # newAb[i] \/ (i \in lk.dv /\ ~Replaced(i)))}]
       \* ---------- PROPERTY checks
@@ -334,7 +339,7 @@ OpStep(e) ==
       chkLive == \A i \in 1..hd.nt : obsX[i].lv = lvAfter(i)
       chkDrops == (hd.tr = 1 /\ e.op \notin {"serde_de", "serde_de_in_place"}) => (NoDupSeq(e.dr) /\ SeqToSet(e.dr) = absr.dr)
       \* every object the LIBRARY created during the call (clones, keys made by Into / Deserialize) is stored or was dropped
-      libCreated == Ids(SeqToSet(e.nw)) \ (Ids({e.id, e.vid}) \cup (IF e.op \in {"extend", "par_extend"} THEN IdsOfY(e) ELSE {}))
+      libCreated == Ids(SeqToSet(e.nw)) \ (Ids({e.id, e.vid}) \cup (IF e.op \in {"extend", "par_extend", "from_iter"} THEN IdsOfY(e) ELSE {}))
       chkFresh == (hd.tr = 1) => libCreated \subseteq (UNION {AllIds(Elems(obsT[i])) : i \in {j \in 1..hd.nt : lvAfter(j)}}) \cup SeqToSet(e.dr)
       chkLen == \A i \in 1..hd.nt : lvAfter(i) =>
                   /\ obsX[i].len = Cardinality(newAb[i]) /\ obsX[i].cap >= obsX[i].len
@@ -378,7 +383,7 @@ OpStep(e) ==
                   /\ (need > 0 /\ Len(e.r) >= 1 => obsX[t].asz <= e.r[1])
           \* ... and the emptied collection is as usable as it ever was with this allocation (C10: "still usable with its allocation")
           [] e.op = "clear" -> obsX[t].asz = prex.asz /\ e.al = <<>> /\ obsX[t].cap >= prex.mc
-          [] e.op = "drain" -> e.al = <<>> /\ (e.n = 0 => obsX[t].asz = prex.asz /\ obsX[t].cap >= prex.mc)
+          [] e.op = "drain" -> e.al = <<>> /\ (e.n \in {0, 2} => obsX[t].asz = prex.asz /\ obsX[t].cap >= prex.mc)
           [] e.op = "new" -> obsX[t].asz = 0
           [] OTHER -> TRUE
       \* C13: under insert/remove churn with at most nk live elements and no explicit reservation the allocation stays
@@ -438,7 +443,7 @@ OpStep(e) ==
           [] e.op = "clone" -> NoIds(obsT[u]) = NoIds(CloneTable(pre, 0).t) /\ obsT[t] = pre
           [] e.op = "clone_from" -> NoIds(obsT[t]) = exp
           [] e.op = "iter" -> obsT[t] = pre /\ IterStrict(e)
-          [] e.op \in OpForms \cup {"par_extend", "serde_roundtrip", "serde_de", "serde_de_in_place"} -> TRUE    \* (chunking of the collected input is schedule-dependent)
+          [] e.op \in OpForms \cup {"par_extend", "serde_roundtrip", "serde_de", "serde_de_in_place", "from_iter"} -> TRUE    \* (chunking of the collected input is schedule-dependent)
           [] e.op \in {"or_assign", "xor_assign"} -> NoIds(obsT[t]) = NoIds(exp)
           [] OTHER -> obsT[t] = exp
   IN /\ IF mine # {} THEN Fail(l, {b[1] : b \in mine}) ELSE TRUE
@@ -470,7 +475,7 @@ FaultStep(e) ==
       live == {i \in 1..hd.nt : obsX[i].lv}
       ph == PlanFn(hd, tx[t].pl)
       allBefore == UNION {AllIds(ab[i]) : i \in 1..hd.nt} \cup Ids({e.id, e.vid})
-                   \cup (IF e.op = "extend" THEN IdsOfY(e) ELSE {}) \cup Ids(SeqToSet(e.nw))
+                   \cup (IF e.op \in {"extend", "from_iter"} THEN IdsOfY(e) ELSE {}) \cup Ids(SeqToSet(e.nw))
       present == UNION {AllIds(Elems(obsT[i])) : i \in live}
       dropped == SeqToSet(e.dr)
       movedOut == IF e.op \in {"drain", "extract_if", "into_iter", "t_extract_if"} THEN IdsOfY(e) ELSE {}
@@ -553,7 +558,7 @@ ChaosStep(e) ==
       obsX == [i \in 1..hd.nt |-> ObsX(e.s[i])]
       live == {i \in 1..hd.nt : obsX[i].lv}
       before == UNION {AllIds(ab[i]) : i \in 1..hd.nt} \cup Ids({e.id, e.vid})
-                \cup (IF e.op = "extend" THEN IdsOfY(e) ELSE {}) \cup Ids(SeqToSet(e.nw))
+                \cup (IF e.op \in {"extend", "from_iter"} THEN IdsOfY(e) ELSE {}) \cup Ids(SeqToSet(e.nw))
       present == UNION {AllIds(Elems(obsT[i])) : i \in live}
       dropped == SeqToSet(e.dr)
       movedOut == IF e.op \in {"drain", "extract_if", "into_iter", "t_extract_if"} THEN IdsOfY(e)     \* yielded to the caller
